@@ -32,6 +32,7 @@ def jobs(tier, seed):
     js += [{"sub": "digraph", "chunk": i, "of": 4, "n": 4} for i in range(4)]
     js.append({"sub": "dag", "chunk": 1, "of": n, "n": b["dag_nodes"], "cap": b["subset_cap"],
                "hashseed": 1 + seed % 1000, "primary": False})
+    js += [{"sub": "history", "chunk": i, "of": 8, "depth": 1 if tier == "quick" else 2} for i in range(8)]
     return js
 
 
@@ -93,7 +94,7 @@ def call(acc, site, what, fn, case, arg=None):
         return False, None
 
 
-def check_dag(acc, c, case, cap):
+def check_dag(acc, c, case, cap, site="dag"):
     import circuitgraph as cg
 
     g = c.graph
@@ -106,7 +107,6 @@ def check_dag(acc, c, case, cap):
     sp_all = {n for n in succ if types[n] in ("input", "bb_output")}
     ep_all = outs | {n for n in succ if types[n] == "bb_input"}
     nodes = sorted(succ)
-    site = "dag"
     # whole-circuit queries
     ok, r = call(acc, site, "startpoints", lambda: c.startpoints(), case)
     if ok:
@@ -215,12 +215,11 @@ def build_digraph(n, edges):
     return c
 
 
-def check_digraph(acc, c, case):
+def check_digraph(acc, c, case, site="digraph"):
     import circuitgraph as cg
 
     succ = refgraph.from_nx(c.graph)
     cyc = refgraph.is_cyclic(succ)
-    site = "digraph"
     ok, r = call(acc, site, "is_cyclic", lambda: c.is_cyclic(), case)
     if ok:
         cmp(acc, site, "is_cyclic", bool(r), cyc, case)
@@ -262,9 +261,162 @@ def run_digraph(job, acc):
         acc.sample(case)
 
 
+# --- histories: query, edit the SAME object, query again (stale caches, missed invalidation) ----------------
+
+
+def children():
+    import circuitgraph as cg
+
+    loop = cg.Circuit("loop")
+    loop.add("x", "input")
+    loop.add("p", "and", fanin=["x"])
+    loop.add("q", "or", fanin=["p", "x"], output=True)
+    loop.connect("q", "p")
+    line = cg.Circuit("line")
+    line.add("x", "input")
+    line.add("p", "not", fanin=["x"])
+    line.add("q", "buf", fanin=["p"], output=True)
+    return {"loop": loop, "line": line}
+
+
+def mutators(c):
+    nodes = sorted(c.graph.nodes)
+    ops = []
+    for u in nodes[:4]:
+        for v in nodes[:4]:
+            if u != v:
+                ops.append(["connect", u, v])      # only edits the API accepts are followed (legal circuits)
+                ops.append(["disconnect", u, v])
+    for n in nodes[:2] + nodes[-1:]:
+        ops.append(["remove", n])
+    ops.append(["relabel", nodes[0], "zz"])
+    ops.append(["set_output", nodes[0]])
+    for n in nodes:
+        if c.graph.nodes[n].get("type") in ("and", "or"):
+            ops.append(["set_type", n, "xor"])
+            break
+    for ch in ("loop", "line"):
+        ops.append(["add_subcircuit", ch, None])
+        ops.append(["add_subcircuit", ch, {"x": nodes[0]}])
+        ops.append(["add_subcircuit", ch, {"x": nodes[0], "q": nodes[-1]}])
+    if "k" in c.blackboxes:
+        ops.append(["fill_blackbox", "k", "loop"])
+        ops.append(["fill_blackbox", "k", "line"])
+    return ops
+
+
+def mutate(c, op, kids):
+    k = op[0]
+    if k == "graph.add_edge":
+        c.graph.add_edge(op[1], op[2])
+    elif k == "disconnect":
+        c.disconnect(op[1], op[2])
+    elif k == "connect":
+        c.connect(op[1], op[2])
+    elif k == "remove":
+        c.remove(op[1])
+    elif k == "relabel":
+        c.relabel({op[1]: op[2]})
+    elif k == "set_output":
+        c.set_output(op[1], not c.is_output(op[1]))
+    elif k == "set_type":
+        c.set_type(op[1], op[2])
+    elif k == "add_subcircuit":
+        c.add_subcircuit(kids[op[1]], "u", dict(op[2]) if op[2] else None)
+    elif k == "fill_blackbox":
+        c.fill_blackbox(op[1], kids[op[2]])
+
+
+def wellformed(c):
+    """Every gate driven, single-input types with one driver, no fan-in on sources (independent of utils.lint)."""
+    g = c.graph
+    for n in g.nodes:
+        t = g.nodes[n].get("type")
+        k = len(g.pred[n])
+        if t in ("input", "0", "1", "x", "bb_output"):
+            if k:
+                return False
+        elif t in ("buf", "not", "bb_input"):
+            if k != 1 and not (t == "bb_input" and k == 0):
+                return False
+        elif t in ("and", "nand", "or", "nor", "xor", "xnor"):
+            if k < 1:
+                return False
+        else:
+            return False
+    return True
+
+
+def check_any(acc, c, case, site="history"):
+    """All queries on whatever the circuit is now."""
+    succ = refgraph.from_nx(c.graph)
+    if refgraph.is_cyclic(succ):
+        check_digraph(acc, c, case, site=site)
+        # closure queries are defined on cyclic graphs too
+        cl = refgraph.closure(succ)
+        clp = refgraph.closure(refgraph.invert(succ))
+        for n in sorted(succ):
+            for what, fn, want in (("transitive_fanout", lambda: c.transitive_fanout(n), cl[n] - {n}),
+                                   ("transitive_fanin", lambda: c.transitive_fanin(n), clp[n] - {n})):
+                ok, got = call(acc, site, what, fn, case, n)
+                if ok:
+                    cmp(acc, site, what, set(got), want, case, n)
+    else:
+        ok_types = all(c.graph.nodes[n].get("type") for n in c.graph.nodes)
+        if ok_types:
+            check_dag(acc, c, case, 2, site=site)
+
+
+def seeds_hist():
+    for edges in space.dags(4):
+        for tname, kinds, outs in typings(4, edges):
+            if tname == "const":
+                continue
+            desc, _nm = space.typed_dag_desc(4, edges, kinds, outs)
+            yield desc
+    yield {"name": "top", "nodes": [["a", "input", [], False], ["b", "buf", [], True], ["g", "and", ["a", "b"], True]],
+           "bbs": [["k", "leaf", ["x"], ["q"], {"x": "a", "q": "b"}]]}
+
+
+def run_history(job, acc):
+    kids = children()
+    for _idx, desc in space.chunk(seeds_hist(), job["chunk"], job["of"]):
+        c0 = space.build(desc)
+        ops = mutators(c0)
+        seqs = [[o] for o in ops]
+        if job["depth"] >= 2:
+            seqs += [[a, b] for a in ops[::3] for b in ops[::2]]
+        for seq in seqs:
+            c = space.build(desc)
+            case = {"kind": "history", "desc": desc, "ops": seq}
+            quiet = Acc(job)
+            check_any(quiet, c, case)          # first round of queries (may fill caches)
+            ok = True
+            for op in seq:
+                try:
+                    mutate(c, op, kids)
+                except Exception:  # noqa: BLE001
+                    ok = False                  # an edit the API rejects: nothing to re-query
+                    break
+                if any("type" not in c.graph.nodes[n] for n in c.graph.nodes):
+                    ok = False                  # graph.add_edge created an untyped node
+                    break
+            if not ok or not wellformed(c):
+                continue
+            acc.states += 1
+            acc.nontrivial += 1
+            check_any(acc, c, case)             # second round: judged against the current graph
+        acc.sample({"desc": desc, "ops": seqs[0]})
+        if acc.out_of_time():
+            break
+
+
 def run(job):
     common.setup_paths()
     acc = Acc(job)
+    if job["sub"] == "history":
+        run_history(job, acc)
+        return acc.result()
     if job["sub"] == "dag":
         run_dag(job, acc)
     else:
@@ -275,7 +427,15 @@ def run(job):
 def replay(case, job):
     common.setup_paths()
     acc = Acc(job)
-    if case["kind"] == "dag":
+    if case["kind"] == "history":
+        kids = children()
+        c = space.build(case["desc"])
+        base = {k: v for k, v in case.items() if k not in ("query", "arg")}
+        check_any(Acc(job), c, base)
+        for op in case["ops"]:
+            mutate(c, op, kids)
+        check_any(acc, c, base)
+    elif case["kind"] == "dag":
         c = space.build(case["desc"])
         check_dag(acc, c, case, 6)
     else:
